@@ -6,7 +6,7 @@ from concurrent.futures import ThreadPoolExecutor
 
 from lib import common
 
-CHECKS = ["c02", "c04", "c05", "c17", "c01", "c08", "c07", "c15", "c03", "c16", "c13", "c06", "c14", "c12", "c11"]
+CHECKS = ["c02", "c04", "c05", "c17", "c01", "c08", "c07", "c15", "c03", "c16", "c13", "c06", "c14", "c12", "c11", "c09", "c10"]
 
 
 def main():
